@@ -290,3 +290,6 @@ Definition kv_chk_C14 (c : scase * list ostep) : bool := chk_C14_kv c.
 (*                               resp  body  cas   exp   xattr rev   json  del   live  order *)
 Definition mask_C14 := mkMask    true  true  false true  false false false true  true  false.
 Definition kv_corr_C14 := kv_corr_proj mask_C14 rel_all.
+
+Definition kv_chk_C19 (c : scase * list ostep) : bool := chk_C19_kv c.
+Definition kv_corr_C19 := kv_corr_proj mask_C11 (fun o => match o with SQuery _ _ => true | _ => false end).
